@@ -201,6 +201,9 @@ PROPS["C08"] = {
     "jobs": lambda tier: [
         J("dbg", "iters", "--n", ns(0, 5 if tier == "quick" else 7)),
         J("rel", "iters", "--n", ns(0, 6 if tier == "quick" else 8), count_distinct=False),
+        # element without drop glue: iterator fast paths gated on mem::needs_drop
+        J("dbg", "iters", "--n", ns(0, 4 if tier == "quick" else 6), "--elem", "nodrop", count_distinct=False),
+        J("rel", "iters", "--n", ns(0, 4 if tier == "quick" else 6), "--elem", "nodrop", count_distinct=False),
     ],
     "require_counters": ["iter_steps"],
     "assumptions": COMMON_ASSUME,
@@ -376,6 +379,9 @@ with_jobs("C03", lambda tier: [
     S("miri-tb", "sweep", "--n", ns(0, 3), "--lean", 1, "--routes", "1,6", "--noforget", 1, "--sample", 3),
     S("relheap-mc", "sweep", "--n", ns(0, 3), "--lean", 1, "--routes", "0,1,3", "--noforget", 1),
     S("miri", "ctor", "--n", ns(0, 3), "--sample", 2),
+    # element without drop glue (needs_drop == false fast paths) under the UB interpreter
+    S("miri", "sweep", "--n", ns(0, 3), "--lean", 1, "--routes", "0,3", "--noforget", 1, "--elem", "nodrop", "--sample", 4),
+    S("miri", "drain", "--n", ns(0, 3), "--lean", 1, "--routes", "0,3", "--elem", "nodrop", "--sample", 3),
 ]))
 
 with_jobs("C04", lambda tier: [
@@ -384,6 +390,8 @@ with_jobs("C04", lambda tier: [
 ] + ([] if tier == "quick" else [
     S("miri-plain", "nonint", "--n", ns(0, 3), "--lean", 1, "--nopoke", 1, "--routes", "0,2,3", "--noforget", 1, "--sample", 3),
     S("rel-mc", "cmp", "--n", 3),
+    S("miri-plain", "nonint", "--n", ns(0, 3), "--lean", 1, "--nopoke", 1, "--routes", "0,3", "--noforget", 1, "--elem", "nodrop", "--sample", 4),
+    S("rel-mc", "nonint", "--n", ns(0, 3), "--lean", 1, "--nopoke", 1, "--routes", "0,3", "--elem", "nodrop", "--sample", 2),
 ]))
 
 with_jobs("C05", lambda tier: [
